@@ -22,6 +22,15 @@
 //!   install.cut directed, run first: a follower acknowledges entries, then installs a snapshot reaching
 //!               beyond / below / exactly to what it acknowledged, conflicting with a local suffix, or a
 //!               second snapshot; the WAL is cut at EVERY byte the install wrote.
+//!   large.*    directed, run first: log entries whose block carries a large transaction payload (serialized
+//!               entry >= 64 KiB, >= 1 MiB, thorough: >= 4 MiB) arriving through AppendEntries, `propose` and a
+//!               snapshot install, in the MIDDLE of a history: smaller entries, a term change and a granted vote
+//!               are written after it; then a restart from the complete file, further protocol steps, a second
+//!               restart. The same oracles as everywhere else judge the restarted real node.
+//!   sizes.raw   directed, run first: byte-exact payload sizes at every boundary that exists or could plausibly
+//!               exist in such code, through `RaftWal::{append, open, replay}` directly, the long record in the
+//!               middle of term / vote / entry records; cuts around the long record, reopen, append, reopen.
+//!   (large entries also occur, rarely, in the random chain / snapshot / fail streams and in raw.*)
 //!
 //! Two oracles on the restarted REAL node at every cut, neither gated on the model:
 //!   record-derived  the obligations of the last completed handler call, released by the WAL records of the
@@ -42,7 +51,7 @@ use tensor_chain::network::{
     RequestVote, RequestVoteResponse, TimeoutNow,
 };
 use tensor_chain::raft::{RaftConfig, RaftNode, RaftState};
-use tensor_chain::{serialize_entries, RaftRecoveryState, RaftWal, RaftWalEntry, SnapshotBufferConfig, SnapshotMetadata};
+use tensor_chain::{serialize_entries, RaftRecoveryState, RaftWal, RaftWalEntry, SnapshotBufferConfig, SnapshotMetadata, Transaction};
 use tensor_store::SparseVector;
 
 const SELF_ID: u64 = 0;
@@ -55,9 +64,61 @@ fn nid_num(s: &str) -> u64 {
     s.parse().unwrap_or(77)
 }
 
+/// Commands (block heights) from `SIZE_UNIT` on stand for blocks that carry ONE large `Put` transaction:
+/// `c / SIZE_UNIT` is the size class, the payload bytes are a function of `c` alone, so that an event line
+/// (`ev ae 1 1 1 1 1.2000007`) reproduces the entry. The model's entry is (index, term, command) whatever
+/// the size: its theorems hold for every serializer, i.e. for every assignment of record sizes.
+const SIZE_UNIT: u64 = 1_000_000;
+/// payload bytes of the size classes 1.. (serialized `LogEntry` >= 64 KiB, >= 1 MiB, >= 4 MiB; class 4: a
+/// few KiB, more than any buffer-less small record)
+const CLASS_PAYLOAD: [usize; 4] = [64 * 1024, 1024 * 1024, 4 * 1024 * 1024, 5000];
+
+fn payload_of(c: u64) -> Option<Vec<u8>> {
+    let class = (c / SIZE_UNIT) as usize;
+    if class == 0 {
+        return None;
+    }
+    let n = CLASS_PAYLOAD[(class - 1).min(CLASS_PAYLOAD.len() - 1)];
+    // xorshift: every byte value occurs, nothing for an encoder to pack
+    let mut x = c.wrapping_mul(0x9E37_79B9_7F4A_7C15) | 1;
+    let mut v = Vec::with_capacity(n + 8);
+    while v.len() < n {
+        x ^= x << 13;
+        x ^= x >> 7;
+        x ^= x << 17;
+        v.extend_from_slice(&x.to_le_bytes());
+    }
+    v.truncate(n);
+    Some(v)
+}
+
 fn mk_block(height: u64) -> Block {
     let header = BlockHeader::new(height, [0u8; 32], [0u8; 32], [0u8; 32], "p".to_string());
-    Block::new(header, vec![])
+    let txs = match payload_of(height) {
+        Some(data) => vec![Transaction::Put { key: "blob".to_string(), data }],
+        None => vec![],
+    };
+    Block::new(header, txs)
+}
+
+/// How large the entries of the random generators may get in the current case: 0 = empty blocks only (the
+/// default), k = size classes 1..=k. `BIG_BUDGET` bounds the number of large entries of one case.
+static SIZE_MODE: std::sync::atomic::AtomicU64 = std::sync::atomic::AtomicU64::new(0);
+static BIG_BUDGET: std::sync::atomic::AtomicU64 = std::sync::atomic::AtomicU64::new(0);
+
+/// the command of a NEW entry
+fn gen_cmd(r: &mut Rng) -> u64 {
+    let base = 1 + r.below(900);
+    let mode = SIZE_MODE.load(std::sync::atomic::Ordering::Relaxed);
+    if mode == 0 {
+        return base;
+    }
+    if r.chance(1, 4) && BIG_BUDGET.load(std::sync::atomic::Ordering::Relaxed) > 0 {
+        BIG_BUDGET.fetch_sub(1, std::sync::atomic::Ordering::Relaxed);
+        let class = if r.chance(1, 3) { 4 } else { 1 + r.below(mode) };
+        return class * SIZE_UNIT + base;
+    }
+    base
 }
 
 /// `snapshot_trailing_logs` of the nodes the harness creates (100 = the default: no compaction of the
@@ -627,7 +688,7 @@ fn gen_snap(r: &mut Rng, cur: u64, log: &[Ent]) -> Ev {
                 }
                 .max(prev_t)
                 .max(1);
-                ents.push((t, 1 + r.below(900)));
+                ents.push((t, gen_cmd(r)));
                 prev_t = t;
             }
         }
@@ -703,7 +764,7 @@ fn gen_event(r: &mut Rng, lv: &Live) -> Ev {
         return Ev::Lead;
     }
     if role == RaftState::Leader && r.chance(2, 5) {
-        return Ev::Prop { c: 1 + r.below(900) };
+        return Ev::Prop { c: gen_cmd(r) };
     }
     loop {
         match r.below(100) {
@@ -779,7 +840,7 @@ fn gen_event(r: &mut Rng, lv: &Live) -> Ev {
                     };
                     let c = match existing {
                         Some(e) if et == e.1 => e.2,
-                        _ => 1 + r.below(900),
+                        _ => gen_cmd(r),
                     };
                     ents.push((et, c));
                 }
@@ -791,7 +852,7 @@ fn gen_event(r: &mut Rng, lv: &Live) -> Ev {
             89..=93 => return gen_snap(r, cur, &log),
             _ => {
                 if role == RaftState::Leader || r.chance(1, 6) {
-                    return Ev::Prop { c: 1 + r.below(900) };
+                    return Ev::Prop { c: gen_cmd(r) };
                 }
             }
         }
@@ -815,7 +876,24 @@ struct Ctx<'a> {
     slow_budget: u64,
     /// cut at EVERY byte a snapshot install wrote (also in the quick tier)
     dense_install: bool,
+    /// the first crash of the case is a restart from the COMPLETE file (no byte lost)
+    restart_whole_first: bool,
+    /// scripted events of the phase after the first restart (the rest of that phase is random)
+    script_after_restart: Vec<Ev>,
 }
+
+/// Files beyond these sizes hold a long record. The real node is restarted on every chosen cut as always
+/// (both oracles); the MODEL is asked at fewer of them (its byte lists cost ~0.2 s per MiB and question):
+/// above `LARGE_FILE` at the complete file and at the boundaries of the (first two) long records; above
+/// `HUGE_FILE` at no cut — the model reads the file's bytes where the case crashes for real (`restart <hex>`,
+/// for the directed large cases the complete file first) and every handler call after that compares the
+/// restarted real node's whole state with the model's — and the cuts of the ordinary records are thinned to
+/// their last byte and their end (all of +-{0,1,3,7}, the byte behind the header and the middle of the
+/// payload stay around a long record).
+const LARGE_FILE: usize = 48 * 1024;
+const HUGE_FILE: usize = 256 * 1024;
+/// a record this long counts as a long record
+const LONG_RECORD: usize = 32 * 1024;
 
 /// One recorded handler call.
 struct Step {
@@ -948,7 +1026,7 @@ fn gen_ae_same_term(r: &mut Rng, lv: &Live) -> Ev {
             Some(e) if !conflict && (e.1 == cur || r.chance(1, 2)) => ents.push((e.1, e.2)),
             _ => {
                 conflict = true;
-                ents.push((cur, 1 + r.below(900)));
+                ents.push((cur, gen_cmd(r)));
             }
         }
     }
@@ -959,7 +1037,7 @@ fn gen_event_failing(r: &mut Rng, lv: &Live, slow_budget: &mut u64) -> Ev {
     for _ in 0..20 {
         let ev = match r.below(20) {
             0..=9 => gen_ae_same_term(r, lv),
-            10..=12 => Ev::Prop { c: 1 + r.below(900) },
+            10..=12 => Ev::Prop { c: gen_cmd(r) },
             13..=14 => gen_snap(r, lv.node.current_term(), &node_log(&lv.node)),
             _ => gen_event(r, lv),
         };
@@ -975,6 +1053,14 @@ fn gen_event_failing(r: &mut Rng, lv: &Live, slow_budget: &mut u64) -> Ev {
 }
 
 fn run_case(cx: &mut Ctx, r: &mut Rng, case_no: u64, max_crashes: usize, script: Option<Vec<Ev>>, stream: &str, fails: &FailCfg) {
+    let t_case = std::time::Instant::now();
+    run_case_inner(cx, r, case_no, max_crashes, script, stream, fails);
+    if std::env::var("C10_TIMES").is_ok() && t_case.elapsed().as_millis() > 400 {
+        eprintln!("  slow case {stream} {case_no}: {:?} size_mode={}", t_case.elapsed(), SIZE_MODE.load(std::sync::atomic::Ordering::Relaxed));
+    }
+}
+
+fn run_case_inner(cx: &mut Ctx, r: &mut Rng, case_no: u64, max_crashes: usize, script: Option<Vec<Ev>>, stream: &str, fails: &FailCfg) {
     let dir = shm_dir();
     // the WAL lives in its own directory: hiding that directory makes `check_space` (statvfs of the
     // parent) fail, i.e. every `RaftWal::append` returns Err before writing anything
@@ -1002,16 +1088,27 @@ fn run_case(cx: &mut Ctx, r: &mut Rng, case_no: u64, max_crashes: usize, script:
         let base_frames = frames(&base_bytes).len();
         let base_len = base_bytes.len();
         let base_ghost = ghost.clone();
-        let scripted: Vec<Ev> = if phase == 0 { script.clone().unwrap_or_default() } else { vec![] };
-        let nev = if phase == 0 {
+        let scripted: Vec<Ev> = if phase == 0 {
+            script.clone().unwrap_or_default()
+        } else if phase == 1 {
+            cx.script_after_restart.clone()
+        } else {
+            vec![]
+        };
+        let nev = if cx.restart_whole_first && !scripted.is_empty() {
+            // the directed large cases: exactly the scripted history (the failing input stays minimal)
+            scripted.len()
+        } else if phase == 0 {
             if script.is_some() { scripted.len() + r.below(3) as usize } else { 6 + r.below(14) as usize }
+        } else if !scripted.is_empty() {
+            scripted.len() + r.below(3) as usize
         } else {
             2 + r.below(7) as usize
         };
         let mut steps: Vec<Step> = vec![];
         for ei in 0..nev {
             let failing = if ei < scripted.len() {
-                fails.scripted.get(ei).copied().unwrap_or(false)
+                phase == 0 && fails.scripted.get(ei).copied().unwrap_or(false)
             } else {
                 fails.prob > 0 && r.chance(fails.prob, 100)
             };
@@ -1207,22 +1304,47 @@ fn run_case(cx: &mut Ctx, r: &mut Rng, case_no: u64, max_crashes: usize, script:
         let file = std::fs::read(&path).unwrap_or_default();
         let fr = frames(&file);
         let mut cuts: BTreeSet<usize> = BTreeSet::new();
-        if cx.thorough {
+        let large = file.len() > LARGE_FILE;
+        let huge = file.len() > HUGE_FILE;
+        let long_recs: Vec<(usize, usize)> = fr.iter().skip(base_frames).filter(|(s, e)| e - s > LONG_RECORD).copied().collect();
+        if !long_recs.is_empty() {
+            cx.rep.hit("phase.wrote_long_record");
+            if long_recs.iter().any(|(_, e)| fr.iter().any(|(s2, _)| s2 >= e)) {
+                cx.rep.hit("phase.records_behind_long_record");
+            }
+        } else if fr.iter().take(base_frames).any(|(s, e)| e - s > LONG_RECORD) && fr.len() > base_frames {
+            cx.rep.hit("phase.records_behind_long_record_of_earlier_phase");
+        }
+        if cx.thorough && file.len() - base_len <= 64 * 1024 {
             for n in base_len..=file.len() {
                 cuts.insert(n);
             }
         } else {
+            let all_d: [i64; 7] = [0, 1, 3, 7, -1, -3, -7];
             for (s, e) in fr.iter().skip(base_frames) {
-                for d in [0i64, 1, 3, 7, -1, -3, -7] {
+                let long = e - s > LONG_RECORD;
+                for d in all_d {
                     for b in [*s as i64, *e as i64] {
+                        // a huge file: an ordinary record's end and the byte before it
+                        if huge && !long && !(b == *e as i64 && (d == 0 || d == -1)) {
+                            continue;
+                        }
                         let n = b + d;
                         if n >= base_len as i64 && n <= file.len() as i64 {
                             cuts.insert(n as usize);
                         }
                     }
                 }
+                if long {
+                    // just behind the header, and in the middle of the payload
+                    for n in [s + 8, s + 9, s + (e - s) / 2] {
+                        if n >= base_len && n <= file.len() {
+                            cuts.insert(n);
+                        }
+                    }
+                }
             }
-            for _ in 0..6 {
+            for _ in 0..(if cx.thorough { 24 } else { 6 }) {
                 if file.len() > base_len {
                     cuts.insert(base_len + r.below((file.len() - base_len + 1) as u64) as usize);
                 }
@@ -1242,6 +1364,23 @@ fn run_case(cx: &mut Ctx, r: &mut Rng, case_no: u64, max_crashes: usize, script:
                 }
             }
         }
+        if large {
+            // which cuts the model is asked about (see LARGE_FILE)
+            let mut ask: BTreeSet<usize> = BTreeSet::new();
+            if !huge {
+                ask.insert(file.len());
+                for (s, e) in long_recs.iter().take(2) {
+                    ask.insert(*s);
+                    ask.insert(*e);
+                }
+            }
+            for n in &cuts {
+                if !ask.contains(n) {
+                    real_only.insert(*n);
+                }
+            }
+            cx.rep.hit(if huge { "cuts.huge_file" } else { "cuts.large_file" });
+        }
         let cuts: Vec<usize> = cuts.into_iter().collect();
         // cuts that fall inside the records of a snapshot install (first record begun, last not complete)
         let mid_install: Vec<usize> = cuts
@@ -1249,7 +1388,10 @@ fn run_case(cx: &mut Ctx, r: &mut Rng, case_no: u64, max_crashes: usize, script:
             .copied()
             .filter(|n| steps.iter().any(|s| matches!(s.ev, Ev::Snap { .. }) && s.bytes_before < *n && *n < s.bytes_after))
             .collect();
-        let chosen = if phase < max_crashes && !cuts.is_empty() {
+        let chosen = if phase == 0 && cx.restart_whole_first && phase < max_crashes {
+            cx.rep.hit("chain.restart_on_complete_file");
+            Some(file.len())
+        } else if phase < max_crashes && !cuts.is_empty() {
             // prefer a cut that tears a record
             let torn: Vec<usize> = cuts.iter().copied().filter(|n| !fr.iter().any(|(_, e)| e == n) && *n != base_len).collect();
             if !mid_install.is_empty() && r.chance(if script.is_some() { 2 } else { 1 }, 3) {
@@ -1306,11 +1448,14 @@ fn run_case(cx: &mut Ctx, r: &mut Rng, case_no: u64, max_crashes: usize, script:
             // the throw-away copy for the vote probes is not needed when no vote is owed and nothing is
             // compared with the model
             let need_probe = !light || !obl.votes.is_empty();
-            if need_probe {
+            // at a real-node-only cut the probes go to the restarted node itself, after its term, log and
+            // volatile state were read (the probes change nothing that is read afterwards)
+            let own_probe = light && need_probe;
+            if need_probe && !own_probe {
                 std::fs::write(&p3, cutb).unwrap();
             }
             let rnode = mk_node(&p2);
-            let pnode = if need_probe { mk_node(&p3) } else { mk_node(&dir.path().join("cut_unused.wal")) };
+            let pnode = if need_probe && !own_probe { mk_node(&p3) } else { mk_node(&dir.path().join("cut_unused.wal")) };
             // model restart on the same bytes (state restored afterwards)
             let mo_node = if light {
                 String::new()
@@ -1324,8 +1469,15 @@ fn run_case(cx: &mut Ctx, r: &mut Rng, case_no: u64, max_crashes: usize, script:
                 (Ok(rn), Ok(pn)) => {
                     let term = rn.current_term();
                     let log = node_log(&rn);
-                    let voted = if need_probe { probe_voted(&pn) } else { "not-probed".to_string() };
-                    let imp_node = format!("{}/{}/{}/{} {} {}", term, voted, role_tok(&rn), log_tok(&log), dump_fields(&rn).1, base_tok(&log));
+                    let (role_rn, dump_rn) = (role_tok(&rn), dump_fields(&rn).1);
+                    let voted = if own_probe {
+                        probe_voted(&rn)
+                    } else if need_probe {
+                        probe_voted(&pn)
+                    } else {
+                        "not-probed".to_string()
+                    };
+                    let imp_node = format!("{}/{}/{}/{} {} {}", term, voted, role_rn, log_tok(&log), dump_rn, base_tok(&log));
                     if !light {
                         let hist = history.clone();
                         cx.rep.compare("cut.restart", || json!({"history": hist, "cut": n}), &imp_node, &mo_node);
@@ -1483,14 +1635,22 @@ fn gen_raw(r: &mut Rng, term_hi: u64) -> RaftWalEntry {
     }
 }
 
-fn run_raw(cx: &mut Ctx, r: &mut Rng, case_no: u64) {
+/// `long`: (size class, position in percent) of one `LogEntryFull` with a large block put among the records
+fn run_raw(cx: &mut Ctx, r: &mut Rng, case_no: u64, long: Option<(u64, u64)>) {
     let dir = shm_dir();
     let path = dir.path().join("w.wal");
     cx.m.ask("clear");
     cx.seen.clear();
     let n = 1 + r.below(14) as usize;
     let hi = 1 + r.below(5);
-    let ents: Vec<RaftWalEntry> = (0..n).map(|_| gen_raw(r, hi)).collect();
+    let mut ents: Vec<RaftWalEntry> = (0..n).map(|_| gen_raw(r, hi)).collect();
+    if let Some((class, pos)) = long {
+        let idx = 1 + pos % 8;
+        let e = LogEntry::new(hi, idx, mk_block(big(class, pos)));
+        let at = (pos as usize * (ents.len() + 1)) / 100;
+        ents.insert(at.min(ents.len()), RaftWalEntry::LogEntryFull { index: idx, term: hi, entry_data: bitcode::serialize(&e).unwrap() });
+        cx.rep.hit(&format!("raw.long_record.class{class}"));
+    }
     let toks: Vec<String> = ents.iter().map(rec_tok).collect();
     for e in &ents {
         cx.rep.hit(&format!("raw.rec.{}", rec_kind(e)));
@@ -1748,6 +1908,379 @@ fn install_cut_scripts() -> Vec<(Vec<Ev>, &'static str)> {
             "second_snapshot_over_acked_on_top",
         ),
     ]
+}
+
+
+// ---------------------------------------------------------------- large entries
+
+/// a command of size class `class` (see `SIZE_UNIT`)
+fn big(class: u64, c: u64) -> u64 {
+    class * SIZE_UNIT + c
+}
+
+/// Directed histories with ONE large entry in the middle (run first). For each: (name, events before the
+/// first restart — which is a restart from the complete file —, events after it, WAL-failure flags).
+/// The shortest histories in which "replay reads every record append wrote, whatever its length" is the only
+/// thing between a restart and a forgotten entry / term / vote: the large entry is acknowledged, then smaller
+/// entries, a higher term and a vote are written BEHIND it; after the restart a second candidate asks for the
+/// vote of that term (must be refused), more records are written behind the long one, and the node restarts
+/// again. Neighbours: the large entry first / last in the file, two of them, one that a later leader's
+/// conflict truncation replaces, one whose first append fails.
+fn large_scripts(class: u64) -> Vec<(&'static str, Vec<Ev>, Vec<Ev>, Vec<bool>)> {
+    let ae = |t: u64, l: u64, pi: u64, pt: u64, ents: Vec<(u64, u64)>| Ev::Ae { t, l, pi, pt, ents };
+    let rv = |t: u64, c: u64, li: u64, lt: u64| Ev::Rv { t, c, li, lt };
+    let b = big(class, 2);
+    vec![
+        // follower: entries 1, 2 (large), 3 acknowledged to the leader of term 1, vote of term 2 to n2
+        (
+            "append_entries",
+            vec![ae(1, 1, 0, 0, vec![(1, 11)]), ae(1, 1, 1, 1, vec![(1, b)]), ae(1, 1, 2, 1, vec![(1, 13)]), rv(2, 2, 3, 1)],
+            vec![rv(2, 3, 9, 9), ae(2, 2, 3, 1, vec![(2, 14)]), rv(3, 4, 4, 2)],
+            vec![],
+        ),
+        // leader: proposes 1, 2 (large), 3 in term 1, steps down for term 2, votes for n2
+        (
+            "propose",
+            vec![Ev::Elect, Ev::Lead, Ev::Prop { c: 31 }, Ev::Prop { c: b }, Ev::Prop { c: 33 }, Ev::Aer { t: 2 }, rv(2, 2, 3, 1)],
+            vec![rv(2, 3, 9, 9), Ev::Elect, Ev::Lead, Ev::Prop { c: 34 }],
+            vec![],
+        ),
+        // follower: a snapshot 1..3 whose entry 2 is large (re-persisted as LogEntryFull records), an entry
+        // acknowledged on top, vote of term 2; after the restart a second snapshot 1..5 repeats the large entry
+        (
+            "install_snapshot",
+            vec![
+                ae(1, 1, 0, 0, vec![(1, 11)]),
+                Ev::Snap { li: 3, lt: 1, ents: vec![(1, 11), (1, b), (1, 13)], streaming: false },
+                ae(1, 1, 3, 1, vec![(1, 14)]),
+                rv(2, 2, 4, 1),
+            ],
+            vec![
+                rv(2, 3, 9, 9),
+                Ev::Snap { li: 5, lt: 1, ents: vec![(1, 11), (1, b), (1, 13), (1, 14), (1, 15)], streaming: true },
+                ae(2, 2, 5, 1, vec![(2, 16)]),
+            ],
+            vec![],
+        ),
+    ]
+}
+
+fn large_neighbours(class: u64) -> Vec<(&'static str, Vec<Ev>, Vec<Ev>, Vec<bool>)> {
+    let ae = |t: u64, l: u64, pi: u64, pt: u64, ents: Vec<(u64, u64)>| Ev::Ae { t, l, pi, pt, ents };
+    let rv = |t: u64, c: u64, li: u64, lt: u64| Ev::Rv { t, c, li, lt };
+    let b = big(class, 2);
+    let b2 = big(class, 4);
+    vec![
+        ("first_entry_is_large", vec![ae(1, 1, 0, 0, vec![(1, b)]), ae(1, 1, 1, 1, vec![(1, 12)]), rv(1, 2, 2, 1)], vec![rv(1, 3, 9, 9)], vec![]),
+        ("last_record_is_large", vec![ae(1, 1, 0, 0, vec![(1, 11)]), rv(2, 2, 1, 1), ae(2, 2, 1, 1, vec![(2, b)])], vec![ae(2, 2, 2, 2, vec![(2, 13)])], vec![]),
+        (
+            "two_large_in_one_call",
+            vec![ae(1, 1, 0, 0, vec![(1, b), (1, 12), (1, b2)]), rv(2, 2, 3, 1)],
+            vec![rv(2, 3, 9, 9), ae(2, 2, 3, 1, vec![(2, 14)])],
+            vec![],
+        ),
+        // the large acknowledged entry is replaced on a later leader's order (LogTruncate + a small entry)
+        (
+            "large_replaced_by_conflict",
+            vec![ae(1, 1, 0, 0, vec![(1, 11), (1, b), (1, 13)]), ae(2, 2, 1, 1, vec![(2, 22)]), rv(3, 3, 2, 2)],
+            vec![rv(3, 4, 9, 9), ae(3, 3, 2, 2, vec![(3, b2)])],
+            vec![],
+        ),
+        // the append of the large entry fails first (nothing written, not acknowledged), the retry succeeds
+        (
+            "large_after_failed_append",
+            vec![ae(1, 1, 0, 0, vec![(1, 11)]), ae(1, 1, 1, 1, vec![(1, b)]), ae(1, 1, 1, 1, vec![(1, b)]), ae(1, 1, 2, 1, vec![(1, 13)]), rv(2, 2, 3, 1)],
+            vec![rv(2, 3, 9, 9)],
+            vec![false, true, false, false, false],
+        ),
+    ]
+}
+
+/// the WAL configuration of `RaftNode::with_wal`
+fn node_wal_cfg() -> tensor_chain::raft_wal::WalConfig {
+    let mut c = tensor_chain::raft_wal::WalConfig::default();
+    c.auto_rotate = false;
+    c.max_size_bytes = u64::MAX;
+    c
+}
+
+/// A `LogEntryFull` record (entry `idx` of term `term`, command `cmd`) whose serialized `RaftWalEntry` — the
+/// payload of its WAL frame — has EXACTLY `target` bytes, if the encoding allows it.
+fn record_with_payload(target: usize, idx: u64, term: u64, cmd: u64) -> Option<RaftWalEntry> {
+    let mk = |n: usize| -> RaftWalEntry {
+        let mut x = (target as u64).wrapping_mul(0x9E37_79B9_7F4A_7C15) | 1;
+        let mut data = Vec::with_capacity(n + 8);
+        while data.len() < n {
+            x ^= x << 13;
+            x ^= x >> 7;
+            x ^= x << 17;
+            data.extend_from_slice(&x.to_le_bytes());
+        }
+        data.truncate(n);
+        let header = BlockHeader::new(cmd, [0u8; 32], [0u8; 32], [0u8; 32], "p".to_string());
+        let block = Block::new(header, vec![Transaction::Put { key: "blob".to_string(), data }]);
+        let e = LogEntry::new(term, idx, block);
+        RaftWalEntry::LogEntryFull { index: idx, term, entry_data: bitcode::serialize(&e).unwrap() }
+    };
+    let mut n = target.saturating_sub(400).max(1);
+    for _ in 0..16 {
+        let l = bitcode::serialize(&mk(n)).unwrap().len();
+        if l == target {
+            return Some(mk(n));
+        }
+        let next = n as i64 + target as i64 - l as i64;
+        if next < 1 {
+            return None;
+        }
+        n = next as usize;
+    }
+    None
+}
+
+fn len_bucket(n: usize) -> &'static str {
+    match n {
+        0..=1023 => "lt1K",
+        1024..=8191 => "1K-8K",
+        8192..=65535 => "8K-64K",
+        65536..=1048575 => "64K-1M",
+        1048576..=4194303 => "1M-4M",
+        _ => "ge4M",
+    }
+}
+
+const SIZES_CLASS: &str = "tensor_chain.raft_wal.replay/not_whole_record_prefix";
+
+/// Record sizes through `RaftWal::{append, open, replay}` directly, byte-exact: a `LogEntryFull` record whose
+/// payload has exactly b-1 / b / b+1 bytes for every boundary b that exists or could plausibly exist in such
+/// code (one-byte length 256, page 4096, the 8 KiB buffer of BufReader / BufWriter as payload and as whole
+/// frame, 32 KiB, 64 KiB as payload and as whole frame, 128 KiB, 1 MiB as payload and as whole frame; thorough:
+/// 4 MiB, 16 MiB), written in the MIDDLE of a node's records (TermAndVote, a small entry before it; a small
+/// entry and the TermAndVote of a granted vote after it), with the WAL configuration of `RaftNode::with_wal`.
+/// Oracles on the real WAL and the real node only: replay — on the writing handle and on a fresh one — returns
+/// every appended record that lies before the cut, in order (`from_entries` of them is what `from_wal`
+/// reports); `open` counts as many records as replay returns and leaves a file of complete frames alone; a
+/// node started on the file has the term, the vote and the three entries. Then the file is cut just before /
+/// at / just after the end of the long record, just after its header and in its middle, reopened, appended
+/// to, and checked again. One size per boundary is also compared with the model (`recover`, `valid_len`,
+/// `wal_append`: the frame bytes).
+fn run_sizes_raw(cx: &mut Ctx, thorough: bool) {
+    const MIB: usize = 1024 * 1024;
+    let mut ladder: Vec<(usize, bool)> = vec![];
+    for b in [256usize, 4096, 8184, 8192, 32768, 65528, 65536, 131_072] {
+        ladder.push((b - 1, false));
+        ladder.push((b, false));
+        ladder.push((b + 1, true));
+    }
+    for (x, m) in [(MIB - 9, false), (MIB - 8, thorough), (MIB - 7, false), (MIB - 1, false), (MIB, thorough), (MIB + 1, true), (2 * MIB + 1, false)] {
+        ladder.push((x, m));
+    }
+    if thorough {
+        for x in [4 * MIB - 1, 4 * MIB, 4 * MIB + 1, 16 * MIB - 1, 16 * MIB, 16 * MIB + 1] {
+            ladder.push((x, x == 4 * MIB + 1));
+        }
+    }
+    let mut selftest_done = false;
+    for (target, with_model) in ladder {
+        let Some(long) = record_with_payload(target, 2, 1, 2000) else {
+            cx.rep.hit("sizes.unattainable");
+            continue;
+        };
+        cx.rep.hit(&format!("sizes.payload.{}", len_bucket(target)));
+        let dir = shm_dir();
+        let path = dir.path().join("s.wal");
+        cx.m.ask("clear");
+        cx.seen.clear();
+        let small = |idx: u64, cmd: u64| RaftWalEntry::LogEntryFull {
+            index: idx,
+            term: 1,
+            entry_data: bitcode::serialize(&LogEntry::new(1, idx, mk_block(cmd))).unwrap(),
+        };
+        let recs: Vec<RaftWalEntry> = vec![
+            RaftWalEntry::TermAndVote { term: 1, voted_for: None },
+            small(1, 11),
+            long,
+            small(3, 13),
+            RaftWalEntry::TermAndVote { term: 2, voted_for: None },
+            RaftWalEntry::TermAndVote { term: 2, voted_for: Some(nid(2)) },
+        ];
+        let mut trace: Vec<String> = vec![format!("long record: LogEntryFull of entry 2 with a payload of {target} bytes (frame {} bytes)", target + 8)];
+        // (record, end offset)
+        let mut written: Vec<(RaftWalEntry, usize)> = vec![];
+        let mut refused = false;
+        if with_model {
+            cx.m.ask("wal_new 18446744073709551615 3 0");
+        }
+        {
+            let mut w = RaftWal::open_with_config(&path, node_wal_cfg()).unwrap();
+            for e in &recs {
+                let res = w.append(e);
+                let end = std::fs::metadata(&path).map(|m| m.len() as usize).unwrap_or(0);
+                trace.push(format!("append {} -> {}", rec_tok(e), if res.is_ok() { "ok".to_string() } else { append_err(res.as_ref().err().unwrap()) }));
+                if with_model && target <= 140_000 {
+                    // the frame bytes, and that the write side has no per-record limit
+                    let imp = match &res {
+                        Ok(()) => wal_files_tok(&path),
+                        Err(e) => append_err(e),
+                    };
+                    let mo = cx.m.ask(&format!("wal_append {}", hex(&bitcode::serialize(e).unwrap())));
+                    let t = trace.clone();
+                    cx.rep.compare("sizes.append", || json!({"trace": t}), &imp, &mo);
+                }
+                match res {
+                    Ok(()) => written.push((e.clone(), end)),
+                    Err(_) => {
+                        refused = true;
+                        break;
+                    }
+                }
+            }
+            if refused {
+                // a refused append is not acknowledged: no obligation of C10 arises (the model's write side
+                // has no per-record limit; the comparison above reports the difference where it is made)
+                cx.rep.hit("sizes.append_refused");
+                cx.rep.observe(json!({"stream": "sizes.raw", "note": "RaftWal::append refused a record although the file is far below max_size_bytes", "trace": trace}));
+                continue;
+            }
+            // the writing handle itself
+            let got = w.replay().map(|es| es.len()).unwrap_or(0);
+            cx.rep.hit("oracle.sizes.replay");
+            if got != written.len() {
+                cx.rep.violation(SIZES_CLASS, "RaftWal::replay on the writing handle does not return every appended record",
+                    json!({"trace": trace, "long_record_payload_bytes": target, "appended": written.len(), "replayed": got}));
+            }
+        }
+        let full = std::fs::read(&path).unwrap();
+        let big_start = written[1].1;
+        let big_end = written[2].1;
+        // what a fresh handle on `p` says, given the records expected in it
+        let verify = |cx: &mut Ctx, p: &Path, expect: &[RaftWalEntry], trace: &Vec<String>, torn_seen: bool, model: bool| -> bool {
+            let mut fine = true;
+            let len_before = std::fs::metadata(p).map(|m| m.len()).unwrap_or(0) as usize;
+            let valid = frames(&std::fs::read(p).unwrap_or_default()).last().map_or(0, |x| x.1);
+            let w = match RaftWal::open_with_config(p, node_wal_cfg()) {
+                Ok(w) => w,
+                Err(e) => {
+                    cx.rep.violation("tensor_chain.raft_wal.recover/restart_fails", &format!("RaftWal::open fails on a log of complete records and a torn tail: {e}"),
+                        json!({"trace": trace, "long_record_payload_bytes": target}));
+                    return false;
+                }
+            };
+            let len_after = std::fs::metadata(p).map(|m| m.len()).unwrap_or(0) as usize;
+            let counted = w.entry_count();
+            let rp = w.replay();
+            let imp = match &rp {
+                Ok(es) => format!("ok n={} {}", es.len(), rstate_tok(&RaftRecoveryState::from_entries(es))),
+                Err(e) => format!("err {}", err_class(e)),
+            };
+            let want = format!("ok n={} {}", expect.len(), rstate_tok(&RaftRecoveryState::from_entries(expect)));
+            cx.rep.hit("oracle.sizes.replay");
+            if imp != want {
+                fine = false;
+                let class = if torn_seen { "tensor_chain.raft_wal.open/append_after_torn_tail" } else { SIZES_CLASS };
+                cx.rep.violation(class, "replay of a log is not the appended records that lie wholly before the cut",
+                    json!({"trace": trace, "long_record_payload_bytes": target, "got": imp, "want": want}));
+            }
+            if let Ok(es) = &rp {
+                if es.len() as u64 != counted {
+                    fine = false;
+                    let class = if torn_seen { "tensor_chain.raft_wal.open/append_after_torn_tail" } else { "tensor_chain.raft_wal.replay/fewer_records_than_open_counted" };
+                    cx.rep.violation(class,
+                        "RaftWal::open counted more complete records in the file than RaftWal::replay returns: records written by append are invisible to recovery",
+                        json!({"trace": trace, "long_record_payload_bytes": target, "entry_count_after_open": counted, "replayed": es.len()}));
+                }
+            }
+            if len_after != valid {
+                fine = false;
+                cx.rep.violation(if len_after < valid { "tensor_chain.raft_wal.open/complete_record_cut_away" } else { "tensor_chain.raft_wal.open/append_after_torn_tail" },
+                    "RaftWal::open does not leave exactly the complete records of the file",
+                    json!({"trace": trace, "long_record_payload_bytes": target, "len_before_open": len_before, "complete_frames": valid, "len_after_open": len_after}));
+            }
+            if model {
+                let bytes = std::fs::read(p).unwrap_or_default();
+                register(cx.m, &mut cx.seen, &bytes);
+                let mo = cx.m.ask(&format!("recover {}", hex(&bytes)));
+                let t = trace.clone();
+                cx.rep.compare("sizes.recover", || json!({"trace": t, "long_record_payload_bytes": target}), &imp, &mo);
+            }
+            fine
+        };
+        let all: Vec<RaftWalEntry> = written.iter().map(|x| x.0.clone()).collect();
+        verify(cx, &path, &all, &trace, false, with_model);
+        // the node on the complete file: term 2, vote for n2, entries 1..3
+        {
+            let mut g = Ghost::default();
+            g.acted = 2;
+            g.votes.insert((2, 2));
+            for e in [(1u64, 1u64, 11u64), (2, 1, 2000), (3, 1, 13)] {
+                g.acked.insert(e);
+            }
+            let p2 = dir.path().join("n.wal");
+            let p3 = dir.path().join("p.wal");
+            std::fs::write(&p2, &full).unwrap();
+            std::fs::write(&p3, &full).unwrap();
+            match (mk_node(&p2), mk_node(&p3)) {
+                (Ok(rn), Ok(pn)) => {
+                    let log = node_log(&rn);
+                    let voted = probe_voted(&pn);
+                    cx.rep.hit("oracle.sizes.node_restart");
+                    for (kind, detail) in g.check(rn.current_term(), &voted, &log) {
+                        cx.rep.violation(&format!("tensor_chain.raft_wal.recover/{kind}"), &detail,
+                            json!({"trace": trace, "long_record_payload_bytes": target, "obligations": g.tok(),
+                                   "restarted": format!("{}/{}/{}", rn.current_term(), voted, log_tok(&log))}));
+                    }
+                }
+                (Err(e), _) | (_, Err(e)) => {
+                    cx.rep.violation("tensor_chain.raft_wal.recover/restart_fails", &format!("RaftNode::with_wal fails on a complete log: {e}"),
+                        json!({"trace": trace, "long_record_payload_bytes": target}));
+                }
+            }
+        }
+        // would the oracle notice a reader that refuses long frames? (the model's capped variant, NOT the code)
+        if with_model && !selftest_done && target > 65536 + 16 {
+            selftest_done = true;
+            let want = format!("ok n={} {}", all.len(), rstate_tok(&RaftRecoveryState::from_entries(&all)));
+            let capped = cx.m.ask(&format!("recover_capped 65536 {}", hex(&full)));
+            let short = format!("ok n=2 {}", rstate_tok(&RaftRecoveryState::from_entries(&all[..2])));
+            let t = trace.clone();
+            cx.rep.compare("sizes.selftest.capped_variant", || json!({"trace": t, "what": "the model's capped replay variant on this file: the records before the long one"}), &short, &capped);
+            if capped != want {
+                cx.rep.hit("oracle.sizes.selftest.capped_reader_would_be_flagged");
+            }
+        }
+        // cuts around the long record; reopen, append, reopen
+        let more = RaftWalEntry::TermAndVote { term: 3, voted_for: None };
+        let mut cuts = vec![big_end - 1, big_end, big_end + 1, big_start + 9, big_start + 8 + target / 2];
+        cuts.dedup();
+        for (ci, cut) in cuts.into_iter().enumerate() {
+            let cut = cut.min(full.len());
+            let p = dir.path().join("c.wal");
+            std::fs::write(&p, &full[..cut]).unwrap();
+            let mut expect: Vec<RaftWalEntry> = written.iter().filter(|x| x.1 <= cut).map(|x| x.0.clone()).collect();
+            let whole = written.iter().filter(|x| x.1 <= cut).last().map_or(0, |x| x.1);
+            let mut tr = trace.clone();
+            tr.push(format!("crash cut={cut}/{}", full.len()));
+            let model_here = with_model && ci == 0 && (target < 512 * 1024 || thorough);
+            if model_here {
+                let mv = cx.m.ask(&format!("valid_len {}", hex(&full[..cut])));
+                let t = tr.clone();
+                cx.rep.compare("sizes.valid_len", || json!({"trace": t}), &whole.to_string(), &mv);
+            }
+            let pre_ok = verify(cx, &p, &expect, &tr, false, false);
+            // records lost after appending behind a torn tail are the torn-tail class only if the cut file
+            // itself was read correctly
+            let torn = whole != cut && pre_ok;
+            match RaftWal::open_with_config(&p, node_wal_cfg()).and_then(|mut w| w.append(&more)) {
+                Ok(()) => {
+                    expect.push(more.clone());
+                    tr.push(format!("reopen; append {} -> ok", rec_tok(&more)));
+                }
+                Err(e) => tr.push(format!("reopen; append {} -> {}", rec_tok(&more), append_err(&e))),
+            }
+            verify(cx, &p, &expect, &tr, torn, model_here);
+            cx.rep.hit(if whole != cut { "sizes.cut.torn" } else { "sizes.cut.boundary" });
+        }
+        cx.rep.case("sizes.raw", Some(&format!("payload={target}")));
+    }
 }
 
 // ---------------------------------------------------------------- size limit / rotation
@@ -2059,11 +2592,75 @@ fn main() {
     let root = Rng::new(args.seed);
     let thorough = args.thorough;
     {
-        let mut cx = Ctx { m: &mut m, rep: &mut rep, seen: HashSet::new(), thorough, slow_budget: if thorough { 40 } else { 2 }, dense_install: false };
+        let mut cx = Ctx { m: &mut m, rep: &mut rep, seen: HashSet::new(), thorough, slow_budget: if thorough { 40 } else { 2 }, dense_install: false,
+            restart_whole_first: false, script_after_restart: vec![] };
         let t_all = std::time::Instant::now();
         // debugging aid: C10_ONLY_COMPACT=1 runs the compact stream alone
         let only_compact = std::env::var("C10_ONLY_COMPACT").is_ok();
         let cnt = |t: u64, q: u64| -> u64 { if only_compact { 0 } else if thorough { t } else { q } };
+        // directed, first: large log entries in the middle of a history (AppendEntries, propose, snapshot
+        // install), a restart from the complete file, more steps, a second restart; then byte-exact record
+        // sizes on RaftWal itself
+        let mut rl = root.fork("large");
+        cx.thorough = false;
+        cx.restart_whole_first = true;
+        let mut sized: Vec<(String, Vec<Ev>, Vec<Ev>, Vec<bool>)> = vec![];
+        for class in if thorough { vec![1u64, 2, 3] } else { vec![1u64, 2] } {
+            for (name, a, b, f) in large_scripts(class) {
+                // quick tier: all three paths at >= 1 MiB, the 64 KiB class through AppendEntries (and the neighbours)
+                if thorough || class == 2 || name == "append_entries" {
+                    sized.push((format!("{name}.class{class}"), a, b, f));
+                }
+            }
+        }
+        for class in if thorough { vec![1u64, 2] } else { vec![1u64] } {
+            for (name, a, b, f) in large_neighbours(class) {
+                sized.push((format!("{name}.class{class}"), a, b, f));
+            }
+        }
+        // debugging aid: C10_SKIP_LARGE=1 skips the directed large / sizes.raw streams
+        let skip_large = std::env::var("C10_SKIP_LARGE").is_ok();
+        for (i, (name, before, after, flags)) in sized.into_iter().enumerate().filter(|_| !only_compact && !skip_large) {
+            cx.rep.hit(&format!("large.script.{name}"));
+            cx.script_after_restart = after;
+            let t_case = std::time::Instant::now();
+            run_case(&mut cx, &mut rl, 70_000 + i as u64, 2, Some(before), "large", &FailCfg { scripted: flags, prob: 0 });
+            if std::env::var("C10_TIMES").is_ok() { eprintln!("  large.{name} {:?}", t_case.elapsed()); }
+        }
+        cx.script_after_restart = vec![];
+        cx.restart_whole_first = false;
+        if std::env::var("C10_TIMES").is_ok() { eprintln!("before sizes.raw {:?}", t_all.elapsed()); }
+        if !only_compact && !skip_large {
+            run_sizes_raw(&mut cx, thorough);
+        }
+        cx.m.ask("clear");
+        cx.seen.clear();
+        if std::env::var("C10_TIMES").is_ok() { eprintln!("before install.cut {:?}", t_all.elapsed()); }
+        // occasionally a random case may generate large entries (drawn from its own stream, so that the
+        // cases without them are the ones of earlier runs)
+        let mut rsz = root.fork("sizes");
+        let draw_size_mode = |rsz: &mut Rng, rep: &mut Report| {
+            let mode = if rsz.chance(1, if thorough { 16 } else { 14 }) && std::env::var("C10_NO_SIZED").is_err() {
+                if thorough {
+                    match rsz.below(8) {
+                        0..=3 => 1,
+                        4..=6 => 2,
+                        _ => 3,
+                    }
+                } else if rsz.chance(1, 6) {
+                    2
+                } else {
+                    1
+                }
+            } else {
+                0
+            };
+            SIZE_MODE.store(mode, std::sync::atomic::Ordering::Relaxed);
+            BIG_BUDGET.store(if mode > 0 { 2 } else { 0 }, std::sync::atomic::Ordering::Relaxed);
+            if mode > 0 {
+                rep.hit(&format!("case.size_mode.{mode}"));
+            }
+        };
         // directed: a crash at every byte of a snapshot install on a follower holding acknowledged entries
         let mut ri = root.fork("install.cut");
         cx.thorough = false;
@@ -2091,7 +2688,13 @@ fn main() {
         let mut r = root.fork("raw");
         let n_raw = cnt(1500, 150);
         for i in 0..n_raw {
-            run_raw(&mut cx, &mut r, i);
+            let long = if rsz.chance(1, 12) {
+                // a few KiB mostly; 64 KiB (every cut and bit flip of it goes to the model) in the thorough tier
+                Some((if thorough && rsz.chance(1, 5) { 1 } else { 4 }, rsz.below(100)))
+            } else {
+                None
+            };
+            run_raw(&mut cx, &mut r, i, long);
         }
         if std::env::var("C10_TIMES").is_ok() { eprintln!("before rot.raw {:?}", t_all.elapsed()); }
         let mut r = root.fork("rot.raw");
@@ -2107,8 +2710,10 @@ fn main() {
             cx.thorough = thorough && i < 30;
             // every byte of the install's records for the first scripts, frame boundaries +-{1,3,7} after
             cx.dense_install = i < if thorough { 60 } else { 2 };
+            draw_size_mode(&mut rsz, cx.rep);
             run_case(&mut cx, &mut r, 10_000 + i, 2, Some(script), "snapshot", &FailCfg::none());
         }
+        SIZE_MODE.store(0, std::sync::atomic::Ordering::Relaxed);
         cx.dense_install = false;
         if std::env::var("C10_TIMES").is_ok() { eprintln!("before compact {:?}", t_all.elapsed()); }
         // log compaction: small snapshot_trailing_logs, truncate_log events among the others (and some
@@ -2137,8 +2742,10 @@ fn main() {
         if std::env::var("C10_TIMES").is_ok() { eprintln!("before fail {:?}", t_all.elapsed()); }
         cx.thorough = false;
         for i in 0..cnt(300, 8) {
+            draw_size_mode(&mut rsz, cx.rep);
             run_case(&mut cx, &mut rf, 41_000 + i, 2, None, "fail", &FailCfg { scripted: vec![], prob: 30 });
         }
+        SIZE_MODE.store(0, std::sync::atomic::Ordering::Relaxed);
         if !only_compact {
             probe_codebook(&mut cx);
         }
@@ -2149,8 +2756,10 @@ fn main() {
         let n_chain = cnt(400, 40);
         for i in 0..n_chain {
             cx.thorough = thorough && i < 30;
+            draw_size_mode(&mut rsz, cx.rep);
             run_case(&mut cx, &mut r, i, 3, None, "chain", &FailCfg::none());
         }
+        SIZE_MODE.store(0, std::sync::atomic::Ordering::Relaxed);
     }
     if std::env::var("C10_TIMES").is_ok() { eprintln!("end {:?}", t_all_end.elapsed()); }
     rep.note("votedFor of a restarted real node is observed through RequestVote probes on a throw-away copy (no getter exists)");
